@@ -617,6 +617,8 @@ def c14_flag_errors(rep, tier, seed, rows):
             frag = base[a:b] if base[a:b] != base else base[:-1]
             args = [rnd.choice(["-e", "-d"]), rnd.choice(["keep-sort", "KEEP-SORTED", "", "all", "check_lua", " keep-unique", frag, frag, base.upper(), base + " ",
                                                           " " + base, base + ",", ", ", "-", base.replace("-", "_"), base + "s", ",".join(names[:2])])]
+            if args[1] in names:          # `affects` has no hyphen to replace: the candidate must really be unknown
+                args[1] = args[1] + "_"
         else:
             args = ["-d", rnd.choice(names), "--enable", rnd.choice(names), "-d", rnd.choice(names)]
         scen.append((case, args))
